@@ -54,6 +54,9 @@ def run(ctx):
     else:
         n, mo = (20000, 20) if ctx.thorough else (3000, 16) if ctx.escalate else (1000, 12)
         cases = [c['case'] if 'case' in c else c for c in ctx.corpus] + [gen_case(rng, mo) for _ in range(n)]
+    from openfilter.filter_runtime.rolllog import RollLog
+    if tuple(RollLog.MODES) != rc.MODES or tuple(RollLog.MODE_EXTS) != ('.bin', '.binl', '.txt', '.jsonl'):   # source fact the framing relies on
+        res.disagreements.append({'point': 'facts.RollLog.MODES', 'case': None, 'impl': [list(RollLog.MODES), list(RollLog.MODE_EXTS)], 'model': list(rc.MODES)})
     runs = []
     dist = {'modes': {}, 'crash_points': {}, 'ops': {}, 'head_states_seen': {}}
     for c in cases:
